@@ -36,6 +36,12 @@ type Mutant struct {
 	Neutral bool   `json:"neutral"` // must stay silent
 	Canary  bool   `json:"canary"`  // also run in the quick tier
 	Note    string `json:"note,omitempty"`
+	// More holds further edits (other files or places) that belong to the same change ("two cooperating sites").
+	More []struct {
+		File    string `json:"file"`
+		Find    string `json:"find"`
+		Replace string `json:"replace"`
+	} `json:"more,omitempty"`
 }
 
 func loadMutants(dir, prop string) ([]Mutant, error) {
@@ -249,18 +255,32 @@ func firstLine(s string) string {
 
 // overlayFor builds the overlay of a mutant; status is non-empty when it cannot be applied.
 func overlayFor(repo string, m Mutant) (map[string][]byte, string) {
-	path := filepath.Join(repo, m.File)
-	b, err := os.ReadFile(path)
-	if err != nil {
-		return nil, "stale (file missing)"
+	type edit struct{ file, find, replace string }
+	edits := []edit{{m.File, m.Find, m.Replace}}
+	for _, x := range m.More {
+		edits = append(edits, edit{x.File, x.Find, x.Replace})
 	}
-	s := string(b)
-	n := strings.Count(s, m.Find)
-	if n == 0 {
-		return nil, "stale (text not found: the tree was edited)"
+	out := map[string][]byte{}
+	for _, e := range edits {
+		path := filepath.Join(repo, e.file)
+		var s string
+		if b, ok := out[path]; ok {
+			s = string(b)
+		} else {
+			b, err := os.ReadFile(path)
+			if err != nil {
+				return nil, "stale (file missing)"
+			}
+			s = string(b)
+		}
+		n := strings.Count(s, e.find)
+		if n == 0 {
+			return nil, "stale (text not found: the tree was edited)"
+		}
+		if n > 1 {
+			return nil, fmt.Sprintf("ambiguous (%d matches)", n)
+		}
+		out[path] = []byte(strings.Replace(s, e.find, e.replace, 1))
 	}
-	if n > 1 {
-		return nil, fmt.Sprintf("ambiguous (%d matches)", n)
-	}
-	return map[string][]byte{path: []byte(strings.Replace(s, m.Find, m.Replace, 1))}, ""
+	return out, ""
 }
